@@ -183,6 +183,7 @@ def run(ctx: Ctx):
     feature_axis(ctx)
     einsum_batch_symbol(ctx)
     env_masks_per_instance(ctx)
+    dataset_figures_independent_of_chunking(ctx)
     deterministic_inference(ctx)
     stateless_forward(ctx)
     submodules_registered(ctx)
@@ -526,6 +527,23 @@ def einsum_batch_symbol(ctx: Ctx):
                    construct=f"einsum:{pat.replace(' ', '')}:batch-symbol")
     if n < 6:
         raise AnalysisError(f"einsum sites lost: {n} < 6")
+
+
+def dataset_figures_independent_of_chunking(ctx: Ctx):
+    """C14.l "evaluation results do not depend on how a dataset happens to be chunked": the dataset-level average the evaluators
+    return is the mean over all per-instance rewards, not a mean of per-batch means (C15.n, shared)."""
+    from . import C15
+    from ..core import Ctx as _Ctx
+    import contextlib, io
+    sub = _Ctx("C15", ctx.repo, "quick", 0)
+    with contextlib.redirect_stdout(io.StringIO()):
+        C15.best_is_the_maximum_reward(sub)
+    got = [o for o in sub.obligations if o.rule == "C15.n"]
+    if not got:
+        raise AnalysisError("C15.n obligation not produced")
+    for o in got:
+        o.rule = "C14.l"
+        ctx.obligations.append(o)
 
 
 def env_masks_per_instance(ctx: Ctx):
